@@ -56,7 +56,7 @@ def site(key, params, holes, requires=(), loops=None, returns='str', extra_mod=(
 
 site('MatlabWrapper.wrap_global_function',
      params={'function': 'list[ref:GlobalFunction]'},
-     requires=['len(function) >= 1', 'isinstance(function[0].parent, Namespace)'],
+     requires=['len(function) >= 1'],
      loops={0: LOOP},
      holes=[dict(match=r'\{varargout\}\{module_name\}_wrapper\(\{num\}', key='num', count='siteCount',
                  set={'siteRole': "('global_function', overload, None, overload.name, False)"})])
@@ -152,3 +152,31 @@ contract('MatlabWrapper.generate_wrapper', params={'namespace': 'ref:Namespace'}
                             'set_next_case == (_i >= 1 and (_i - 1) not in self.wrapper_map and _i in self.wrapper_map)',
                             'forall(lambda k: caseCount[k] == 0)'],
                     'modifies': ['self.global_function_id', 'ghost:defCount', 'ghost:upCount']}})
+
+# ------------------------------------------------------------------ callers: the invariant is kept by every
+# method that can reach an allocation site
+KEEP = dict(ghost=GHOST, requires=['c05_inv(self)'],
+            ensures=['c05_inv(self)', 'self.wrapper_id >= old(self.wrapper_id)'])
+
+contract('MatlabWrapper.wrap_methods',
+         params={'methods': 'list[ref:Method|ref:GlobalFunction]', 'global_funcs': 'bool', 'global_ns': 'none|ref:Namespace'},
+         returns='str', modifies=INV_MOD + ['list(self.content)', 'heap:backup', 'alloc'],
+         loops={0: dict(LOOP, modifies=LOOP_MOD + ['list(self.content)'])},
+         ghost=GHOST, requires=['c05_inv(self)', 'implies(global_funcs, global_ns is not None)'], ensures=KEEP['ensures'])
+
+contract('MatlabWrapper.wrap_instantiated_class',
+         params={'instantiated_class': 'ref:InstantiatedClass', 'namespace_name': 'str'},
+         returns='none|tuple[str,str]',
+         modifies=INV_MOD + ['list(self.content)', 'heap:backup', 'alloc'],
+         loops={0: dict(LOOP, modifies=LOOP_MOD + ['list(self.content)'])}, **KEEP)
+
+contract('MatlabWrapper.wrap_namespace',
+         params={'namespace': 'ref:Namespace', 'add_mex_file': 'bool'}, returns='list[any]',
+         modifies=INV_MOD + ['list(self.content)', 'list(self.includes)', 'list(self.classes)', 'dict(self.classes_elems)',
+                             'heap:backup', 'alloc'],
+         loops={0: dict(LOOP, modifies=LOOP_MOD + ['list(self.content)', 'list(self.includes)', 'list(self.classes)',
+                                                   'dict(self.classes_elems)', 'heap:backup', 'alloc'])},
+         **KEEP)
+
+contract('MatlabWrapper.add_class', params={'instantiated_class': 'ref:InstantiatedClass'}, returns='none',
+         modifies=['list(self.classes)', 'dict(self.classes_elems)'])
